@@ -81,12 +81,26 @@ def lsb (a : BV4) : FE BV4 :=
   if a.length = 0 then .error "aliasLsb: width() != 0"
   else pure (node (.rewire [⟨1, .input 0 0⟩]) 1 [a])
 
-/-- `lt(SInt, SInt) = (lhs - rhs).sign()` (`SignalCompareOp.cpp:41-43`) -/
-def slt (pa pb : Pol) (a b : BV4) : FE BV4 := do msb (← arith .SUB pa pb a b)
-/-- `gt(SInt, SInt) = (rhs - lhs).sign()` (`:38-40`) -/
-def sgt (pa pb : Pol) (a b : BV4) : FE BV4 := do msb (← arith .SUB pb pa b a)
-def sgeq (pa pb : Pol) (a b : BV4) : FE BV4 := do pure (lnot (← slt pa pb a b))
-def sleq (pa pb : Pol) (a b : BV4) : FE BV4 := do pure (lnot (← sgt pa pb a b))
+/-- `sext(x, w)` = `ext(x, BitWidth w, Expansion::sign)` (`SInt.cpp:24-33`) -/
+def sextTo (a : BV4) (w : Nat) : FE BV4 :=
+  if w < a.length then .error "ext is not allowed to reduce width"
+  else if w > a.length then expand .sign a w else pure a
+
+/-- `lt(SInt, SInt) = (sext(lhs, w) - sext(rhs, w)).sign()` with `w = max(widths) + 1` (`SignalCompareOp.cpp:45-48`): the
+    operands are sign-extended by one bit more than the wider one, whatever their own expansion policy is -/
+def slt (a b : BV4) : FE BV4 := do
+  let w := max a.length b.length + 1
+  let a' ← sextTo a w
+  let b' ← sextTo b w
+  msb (← arith .SUB .sign .sign a' b')
+/-- `gt(SInt, SInt) = (sext(rhs, w) - sext(lhs, w)).sign()` (`:40-44`) -/
+def sgt (a b : BV4) : FE BV4 := do
+  let w := max a.length b.length + 1
+  let b' ← sextTo b w
+  let a' ← sextTo a w
+  msb (← arith .SUB .sign .sign b' a')
+def sgeq (a b : BV4) : FE BV4 := do pure (lnot (← slt a b))
+def sleq (a b : BV4) : FE BV4 := do pure (lnot (← sgt a b))
 
 /-- the literal `1` of `~x + 1`: `UInt(1)` is one bit wide with policy zero (`BitVector.cpp:347-360`) -/
 def plusOne (x : BV4) : FE BV4 := arith .ADD .none .zero x [.t]
